@@ -187,7 +187,7 @@ def param_decl(p):
     if k == "arr_out_fixed":
         return "%s *%s +intent(out)+dimension(%d)" % (T, n, p["K"])
     if k == "cstr_in":
-        return "const char *%s" % n
+        return ("char *%s +intent(in)" if p.get("nonconst") else "const char *%s") % n
     if k == "cstr_out":
         return "char *%s +intent(out)+charlen(%d)" % (n, p["charlen"])
     if k == "cstr_inout":
